@@ -77,6 +77,56 @@ def run(ctx):
                                          **({"site": f"{ctx.src.where(mod, node)} {where}"}))
         if not found:
             raise AnalysisError(f"no construction site of {cls} found")
+    # the caches that hold the unique objects: discovered as the attribute in which a construction site stores what it made
+    caches = {}
+    for cls in ("Element", "Isotope", "Ion"):
+        for mod, node in ctx.src.constructor_calls(cls):
+            where = ctx.src.enclosing_function(mod, node)
+            fdef = ctx.src.funcs.get(where)
+            if fdef is None:
+                continue
+            made = set()
+            for st in ast.walk(fdef.node):
+                if isinstance(st, ast.Assign):
+                    is_made = st.value is node or (isinstance(st.value, ast.Name) and st.value.id in made)
+                    for t in st.targets:
+                        if isinstance(t, ast.Name) and st.value is node:
+                            made.add(t.id)
+                        if is_made and isinstance(t, ast.Subscript) and isinstance(t.value, ast.Attribute):
+                            caches.setdefault(t.value.attr, set()).add(where)
+    if len(caches) < 3:
+        raise AnalysisError(f"atom caches not recognised (found {sorted(caches)}; expected the element, isotope and ion tables)")
+    MUT = {"clear", "pop", "popitem", "update", "setdefault", "__delitem__", "__setitem__"}
+    nuse = 0
+    for mname, m in ctx.src.modules.items():
+        for node in ast.walk(m.tree):
+            attr = None
+            why = None
+            if isinstance(node, ast.Call) and isinstance(node.func, ast.Attribute) and node.func.attr in MUT \
+                    and isinstance(node.func.value, ast.Attribute) and node.func.value.attr in caches:
+                attr, why = node.func.value.attr, f".{node.func.attr}()"
+            elif isinstance(node, ast.Delete):
+                for t in node.targets:
+                    tb = t.value if isinstance(t, ast.Subscript) else t
+                    if isinstance(tb, ast.Attribute) and tb.attr in caches:
+                        attr, why = tb.attr, "del"
+            elif isinstance(node, (ast.Assign, ast.AugAssign)):
+                for t in (node.targets if isinstance(node, ast.Assign) else [node.target]):
+                    if isinstance(t, ast.Attribute) and t.attr in caches:
+                        attr, why = t.attr, "rebinding"
+                    elif isinstance(t, ast.Subscript) and isinstance(t.value, ast.Attribute) and t.value.attr in caches:
+                        attr, why = t.value.attr, "item assignment"
+            if attr is None:
+                continue
+            nuse += 1
+            where = ctx.src.enclosing_function(mname, node)
+            init_of_owner = where.endswith(".__init__") and why == "rebinding"
+            ok = init_of_owner or (why == "item assignment" and _only_from(ctx, where, caches[attr] | {w_ for c in ALLOWED.values() for w_ in c}))
+            (ctx.ok if ok else ctx.fail)("R1", f"cache .{attr}: {why} at {where}", *([] if ok else [
+                f"entries of the atom cache .{attr} are removed or replaced outside the code that creates them: "
+                "the atom is then created a second time and objects already handed out (D/T aliases, atoms in formulas, pickles) are no longer the table's"]),
+                **({"site": f"{ctx.src.where(mname, node)} {where}"}))
+    ctx.unit("cache_writes", nuse)
     # positive example: the sweep must see a constructor call in a sample module
     pos = ast.parse("def helper(el):\n    return Isotope(el, 3)\n")
     n = sum(1 for nd in ast.walk(pos) if isinstance(nd, ast.Call) and getattr(nd.func, "id", None) == "Isotope")
@@ -87,7 +137,7 @@ def run(ctx):
         ctx.check(not (defined & HOOKS), "R1", f"{cq.split('.')[1]} defines no copy/pickle/equality hook besides __reduce__",
                   f"defines {sorted(defined & HOOKS)}", ctx.src.where("core", c))
         ctx.check("__reduce__" in defined, "R3", f"{cq.split('.')[1]} pickles by reference (__reduce__)", "no __reduce__", ctx.src.where("core", c))
-    ctx.floor("R1", 9)
+    ctx.floor("R1", 14)
 
     # ---- R2 all 119 elements through every route -------------------------------------------------
     bad = []
